@@ -309,6 +309,15 @@ def run(rep, drv):
 	for k in range(40 if th else 6):
 		myopic_case(rep, rng)
 
+	H = core.one_argument_histories
+	calls = []
+	base = dict(num_periods=3, holding_cost=1, stockout_cost=10, terminal_holding_cost=1, terminal_stockout_cost=10, purchase_cost=2, fixed_cost=20, demand_mean=8, demand_sd=2)
+	for kw in H(base, ['purchase_cost', 'fixed_cost', 'demand_sd', 'stockout_cost'], lambda k, v: v + 1):
+		calls.append(('stockpyl.finite_horizon', 'finite_horizon_dp', (), kw))
+	for kw in H(base, ['purchase_cost', 'fixed_cost', 'demand_mean'], lambda k, v: v + 1):
+		calls.append(('stockpyl.finite_horizon', 'myopic_bounds', (), kw))
+	core.history_check(rep, 'call-history', calls, theorem=THEOREM)
+
 
 def replay(rep, drv, doc):
 	print('replaying the quick stream; recorded case:', doc['stream'], doc['case'])
